@@ -353,6 +353,103 @@ def desugar_bool_then(raw, log):
         log.append("desugared %d `bool::then(closure)` call(s) into if/else with the closure body in place" % n_done)
 
 
+def desugar_tail_result_map(raw, log):
+    """`fallible().map(|v| body)` as the value a function returns is `let v = fallible()?; Ok(body)` (the error is
+    handed on unchanged, the closure runs at most once, right there): its MIR is spliced in under a switch on the
+    Result's discriminant, so a struct literal moved into such a closure is again a literal of the function itself.
+    Only the tail position (destination = the return place) is rewritten; `map` calls elsewhere keep their shape."""
+    by_path = {}
+    for b in raw["bodies"]:
+        if b.get("promoted") is None:
+            by_path.setdefault(b["path"], b)
+    n_done = 0
+    for caller in raw["bodies"]:
+        for bi, blk in enumerate(list(caller["blocks"])):
+            t = blk["term"]
+            if t["k"] != "call" or not (t.get("resolved") or t.get("callee") or "").startswith("core::result::Result::<T, E>::map") or len(t["args"]) != 2:
+                continue
+            if (t.get("resolved") or t.get("callee")) != "core::result::Result::<T, E>::map":
+                continue
+            if t["dest"]["l"] != 0 or t["dest"]["p"] or blk["cleanup"]:
+                continue
+            xop, cop = t["args"]
+            if xop.get("k") != "move" or xop["place"]["p"] or cop.get("k") not in ("move", "copy") or cop["place"]["p"]:
+                continue
+            X = xop["place"]
+            cl = cop["place"]["l"]
+            aggs = [s_ for bl in caller["blocks"] for s_ in bl["stmts"] if s_["k"] == "assign" and s_["place"]["l"] == cl and not s_["place"]["p"]]
+            if len(aggs) != 1 or aggs[0]["rv"].get("k") != "agg" or aggs[0]["rv"].get("ak") != "closure":
+                continue
+            callee = by_path.get(aggs[0]["rv"]["closure"])
+            if callee is None or callee.get("arg_count") != 2 or callee is caller:
+                continue
+            captures = {}
+            good = True
+            for k, o in enumerate(aggs[0]["rv"]["ops"]):
+                if o.get("k") in ("move", "copy"):
+                    captures[k] = {"l": o["place"]["l"], "p": o["place"]["p"]}
+                else:
+                    good = False
+            if not good:
+                continue
+            callee = copy.deepcopy(callee)
+            lbase, bbase = len(caller["locals"]), len(caller["blocks"])
+            env_is_ref = callee["locals"][1]["ty"].startswith("&")
+            new_blocks = []
+            for cb in callee["blocks"]:
+                nb = _remap(cb, lambda l: l + lbase, lambda x: x + bbase)
+                nb["i"] = cb["i"] + bbase
+                nb["inlined_from"] = callee["path"]
+                new_blocks.append(nb)
+            if not _subst_captures(new_blocks, lbase + 1, env_is_ref, captures):
+                continue
+            span = t.get("span")
+            dest, cont, unwind = t["dest"], t.get("t"), t.get("unwind")
+            for loc in callee["locals"]:
+                nl = dict(loc)
+                nl["i"] = loc["i"] + lbase
+                nl["inlined_from"] = callee["path"]
+                caller["locals"].append(nl)
+            for v in callee.get("vars", []):
+                nv = _remap(v, lambda l: l + lbase, lambda x: x + bbase)
+                nv.pop("arg", None)
+                nv["inlined_from"] = callee["path"]
+                if _subst_captures(nv, lbase + 1, env_is_ref, captures):
+                    caller["vars"].append(nv)
+            dl = len(caller["locals"])
+            caller["locals"].append({"i": dl, "ty": "isize", "mut": True, "inlined_from": callee["path"]})
+            pty = callee["locals"][2]["ty"]
+            ok_pre = bbase + len(new_blocks)
+            err_blk = ok_pre + 1
+            for nb in new_blocks:
+                tt = nb["term"]
+                if tt["k"] == "return":
+                    ret = {"l": lbase, "p": [], "ty": callee["locals"][0]["ty"]}
+                    nb["stmts"].append({"k": "assign", "place": dest, "span": tt.get("span"), "inlined_ret": True,
+                                        "rv": {"k": "agg", "ak": "adt", "adt": "core::result::Result", "variant": "Ok", "vi": 0, "fields": ["0"], "ops": [{"k": "move", "place": ret}]}})
+                    nb["term"] = {"k": "goto", "t": cont, "span": tt.get("span")} if cont is not None else {"k": "unreachable", "span": tt.get("span")}
+                elif tt["k"] == "resume" and unwind is not None:
+                    nb["term"] = {"k": "goto", "t": unwind, "span": tt.get("span")}
+                caller["blocks"].append(nb)
+            okp = {"l": X["l"], "p": [{"k": "downcast", "vi": 0, "n": "Ok"}, {"k": "field", "i": 0, "ty": pty, "n": "0", "adt": "core::result::Result"}], "ty": pty}
+            caller["blocks"].append({"i": ok_pre, "cleanup": False, "inlined_from": callee["path"],
+                                     "stmts": [{"k": "assign", "place": {"l": lbase + 2, "p": [], "ty": pty}, "span": span, "rv": {"k": "use", "op": {"k": "move", "place": okp}}}],
+                                     "term": {"k": "goto", "t": bbase, "span": span}})
+            ety = "errors::Error"
+            errp = {"l": X["l"], "p": [{"k": "downcast", "vi": 1, "n": "Err"}, {"k": "field", "i": 0, "ty": ety, "n": "0", "adt": "core::result::Result"}], "ty": ety}
+            caller["blocks"].append({"i": err_blk, "cleanup": False, "inlined_from": callee["path"],
+                                     "stmts": [{"k": "assign", "place": dest, "span": span,
+                                                "rv": {"k": "agg", "ak": "adt", "adt": "core::result::Result", "variant": "Err", "vi": 1, "fields": ["0"], "ops": [{"k": "move", "place": errp}]}}],
+                                     "term": {"k": "goto", "t": cont, "span": span} if cont is not None else {"k": "unreachable", "span": span}})
+            blk["stmts"].append({"k": "assign", "place": {"l": dl, "p": [], "ty": "isize"}, "span": span, "rv": {"k": "discr", "place": X}})
+            blk["term"] = {"k": "switch", "discr": {"k": "move", "place": {"l": dl, "p": [], "ty": "isize"}}, "dty": "isize", "arms": [[0, ok_pre], [1, err_blk]], "otherwise": err_blk, "span": span,
+                           "desugared": "Result::map"}
+            by_path[callee["path"]]["inlined_away"] = True
+            n_done += 1
+    if n_done:
+        log.append("desugared %d tail `Result::map(closure)` call(s) into a match with the closure body in place" % n_done)
+
+
 def fold_constant_switches(raw, log):
     """A branch on a temporary whose only definition is a literal (`if cfg!(debug_assertions) {..}` of
     `debug_assert!` with debug assertions off - the configuration the facts are extracted in -, `if false`)
@@ -716,6 +813,7 @@ def apply(text):
         rename_fields(raw, ba, log)
     inline_new_functions(raw, base, log)
     desugar_bool_then(raw, log)
+    desugar_tail_result_map(raw, log)
     desugar_lazy_constants(raw, log)
     return raw, log
 
